@@ -602,6 +602,10 @@ def clsBlankRun (x : Sequence) : Bool :=
     || (m.references.map fun r => (r.range, r.authors, r.title, r.journal, r.pubMed, r.remark))
         != (e.references.map fun r => (r.range, r.authors, r.title, r.journal, r.pubMed, r.remark))
 
+/-- the judge's layout domain MINUS the two known findings: the domain of the layout theorem.  Metadata
+may hold runs of blanks as long as none of them falls on a wrap point of `WrapString(_, 68)`. -/
+def wfLayoutG (x : Sequence) : Bool := wfLayoutJ x && x.metadata.locus.name != [] && !clsBlankRun x
+
 /-- class C03-nameless-locus -/
 def clsNameless (x : Sequence) : Bool := x.metadata.locus.name == []
 
